@@ -183,6 +183,16 @@ def poly1305_wrap(chk):
         if inner is None:
             raise AnalysisBroken('%s: unexpected shape of limb 0: %s' % (fn, sym.show(t)[:200]))
         coefs = sorted(v for k, v in inner[1] if isinstance(k, tuple) and k[0] == 'op' and k[1] == 'lshr')
+        # the final conditional subtraction applies when the value is >= p = 2^130 - 5: low limb > 2^w - 6, all other limbs all-ones
+        mask = next((x[2] for x in t[1][0][0][2:] if x[0] == 'aff' and not x[1]), None)
+        cst = gts[0]['ops'][1]['v']
+        n += 1
+        inst2 = '%s: final subtraction applies when limb 0 > 2^w - 6 (value >= 2^130 - 5)' % fn
+        if mask is not None and cst == mask - 5:
+            chk.ok(R, inst2, src, 'limb mask 0x%X, threshold 0x%X' % (mask, cst))
+        else:
+            chk.violation(R, inst2, src, 'limb mask %s, threshold 0x%X (expected mask - 5): the tag is wrong when the accumulator ends in the range [p, 2^130)'
+                          % (hex(mask) if mask is not None else None, cst), key='%s %s threshold' % (R, fn))
         n += 1
         inst = '%s: the carry out of the top limb re-enters limb 0 multiplied by 5' % fn
         if coefs == [5]:
@@ -190,7 +200,7 @@ def poly1305_wrap(chk):
         else:
             chk.violation(R, inst, src, 'limb 0 becomes limb0 + %s * carry: a value 2^130 + e after the block loop is reduced to e + %s instead of e + 5, '
                           'so the tag is wrong for those accumulator values' % (coefs, coefs), key='%s %s' % (R, fn))
-    chk.floor('Poly1305 finalisations', n, 2)
+    chk.floor('Poly1305 finalisations', n, 4)
 
 
 def run(tier):
